@@ -5,9 +5,9 @@ Require Import Lia.
 
 Definition extends (bl bl' : blmap) : Prop := forall l t, lookup l bl = Some t -> lookup l bl' = Some t.
 Definition agrees (bnf : N -> term) (bl : blmap) : Prop := forall l t, lookup l bl = Some t -> bnf l = t.
-Definition sol_in (sol : solution) (d : list term) : Prop := forall v x, lookup v sol = Some x -> In x d.
+Definition sol_in (sol : solution) (d : list term) : Prop := forall v x, lookup v sol = Some x -> incl (atoms x) d.
 Definition quad_in (q : quad) (d : list term) : Prop :=
-  In (qs q) d /\ In (qp q) d /\ In (qo q) d /\ (forall g, qg q = Some g -> In g d).
+  incl (atoms (qs q)) d /\ incl (atoms (qp q)) d /\ incl (atoms (qo q)) d /\ (forall g, qg q = Some g -> incl (atoms g) d).
 (* every entry of a blank-node map is `Bn k l` for its own label l, allocated in [lo, hi), not in d0 *)
 Definition bl_ok (d0 : list term) (lo hi : N) (bl : blmap) : Prop :=
   forall l t, lookup l bl = Some t -> exists k, t = Bn k l /\ lo <= k < hi /\ ~ In t d0.
@@ -46,19 +46,19 @@ Proof.
   - eapply extends_trans; eauto.
 Qed.
 
-Lemma s_pred_a_word : forall sol bnf t, s_pred a_word sol bnf t = s_term sol bnf t.
-Proof. intros sol bnf [v|c|l|]; reflexivity. Qed.
-
 Lemma In_add_end_t : forall l x y, In y (add_end term_eqb l x) <-> In y l \/ y = x.
 Proof. apply (In_add_end term_eqb term_eqb_spec). Qed.
 
-Lemma encode_post : forall d0 lo bl st c, pre d0 lo bl st -> post d0 lo bl st bl (encode c st) /\ In c (i_dict (encode c st)).
+Lemma In_union_t : forall xs l y, In y (union term_eqb l xs) <-> In y l \/ In y xs.
+Proof. apply (In_union term_eqb term_eqb_spec). Qed.
+
+Lemma encode_post : forall d0 lo bl st c, pre d0 lo bl st -> post d0 lo bl st bl (encode c st) /\ incl (atoms c) (i_dict (encode c st)).
 Proof.
   intros d0 lo bl st c [P1 [P2 [P3 P4]]]. unfold encode; simpl. split.
   - repeat split; simpl; auto using extends_refl; try lia.
-    + intros x Hx; apply In_add_end_t; auto.
-    + intros l t Hl; apply In_add_end_t; left; eapply P4; eauto.
-  - apply In_add_end_t; auto.
+    + intros x Hx; apply In_union_t; auto.
+    + intros l t Hl; apply In_union_t; left; eapply P4; eauto.
+  - intros x Hx; apply In_union_t; auto.
 Qed.
 
 (* ---- the allocator ---- *)
@@ -119,15 +119,21 @@ Qed.
 Lemma lookup_cons_eq : forall {B} l (b : B) bl, lookup l ((l, b) :: bl) = Some b.
 Proof. intros; simpl; rewrite N.eqb_refl; auto. Qed.
 
-Lemma m_term_ok : forall insert sol t bl st st' bl' r d0 lo,
+Lemma post_incl : forall d0 lo bl st bl' st', post d0 lo bl st bl' st' -> incl (i_dict st) (i_dict st').
+Proof. intros d0 lo bl st bl' st' [A _]; exact A. Qed.
+Lemma post_ext : forall d0 lo bl st bl' st', post d0 lo bl st bl' st' -> extends bl bl'.
+Proof. intros d0 lo bl st bl' st' [_ [_ [_ [A _]]]]; exact A. Qed.
+Lemma sol_in_incl : forall sol d d', sol_in sol d -> incl d d' -> sol_in sol d'.
+Proof. intros sol d d' H Hi v x Hv a Ha; apply Hi; eapply H; eauto. Qed.
+
+Lemma m_term_ok : forall t insert sol bl st st' bl' r d0 lo,
   m_term insert sol t bl st = (st', bl', r) -> pre d0 lo bl st ->
   post d0 lo bl st bl' st' /\
   forall ot, r = IOut ot ->
-    (forall bnf, agrees bnf bl' -> s_term sol bnf t = ot) /\
-    (sol_in sol (i_dict st) -> forall x, ot = Some x -> In x (i_dict st')).
+    (forall pred bnf, agrees bnf bl' -> s_term_gen a_word pred sol bnf t = ot) /\
+    (sol_in sol (i_dict st) -> forall x, ot = Some x -> incl (atoms x) (i_dict st')).
 Proof.
-  intros insert sol t bl st st' bl' r d0 lo H Hpre.
-  destruct t as [v|c|l|]; simpl in H.
+  induction t as [v|c|l| |ts IHs tp IHp to IHo]; intros insert sol bl st st' bl' r d0 lo H Hpre; simpl in H.
   - inversion H; subst. split; [apply post_refl; auto|].
     intros ot Ho; inversion Ho; subst. split; auto. intros Hs x Hx; eapply Hs; eauto.
   - inversion H; subst. destruct (encode_post d0 lo bl' st c Hpre) as [Hp Hc]. split; auto.
@@ -136,8 +142,9 @@ Proof.
     + destruct (lookup l bl) as [b|] eqn:El.
       * inversion H; subst. split; [apply post_refl; auto|].
         intros ot Ho; inversion Ho; subst. split.
-        -- intros bnf Ha; simpl. f_equal. apply Ha; auto.
-        -- intros _ x Hx; inversion Hx; subst. destruct Hpre as [P1 [P2 [P3 P4]]]. eapply P4; eauto.
+        -- intros pred bnf Ha; simpl. f_equal. apply Ha; auto.
+        -- intros _ x Hx; inversion Hx; subst. destruct Hpre as [P1 [P2 [P3 P4]]].
+           destruct (P3 _ _ El) as [k [Ek _]]. rewrite Ek. simpl. intros a [<-|[]]. rewrite <- Ek. eapply P4; eauto.
       * destruct (allocate_blank_node l st) as [[b st1]|] eqn:Ea.
         -- inversion H; subst.
            destruct (allocate_some _ _ _ _ Ea) as [k [Ek [Rk [Nk [Fk Dk]]]]].
@@ -156,21 +163,65 @@ Proof.
                + inversion Hl; subst; right; simpl; auto.
                + left; eapply P4; eauto. }
            split; auto. intros ot Ho; inversion Ho; subst. split.
-           ++ intros bnf Ha; simpl. f_equal. apply Ha. apply lookup_cons_eq.
-           ++ intros _ x Hx; inversion Hx; subst. rewrite Dk; apply in_app_iff; right; simpl; auto.
+           ++ intros pred bnf Ha; simpl. f_equal. apply Ha. apply lookup_cons_eq.
+           ++ intros _ x Hx; inversion Hx; subst. simpl. intros a [<-|[]]. rewrite Dk; apply in_app_iff; right; simpl; auto.
         -- inversion H; subst. split; [apply post_refl; auto | intros ot Ho; discriminate].
     + inversion H; subst. split; [apply post_refl; auto | intros ot Ho; discriminate].
   - inversion H; subst. destruct (encode_post d0 lo bl' st a_word Hpre) as [Hp Hc]. split; auto.
-    intros ot Ho; inversion Ho; subst. split; auto. intros _ x Hx; inversion Hx; subst; auto.
+    intros ot Ho; inversion Ho; subst. split.
+    + intros pred bnf _. simpl. destruct pred; reflexivity.
+    + intros _ x Hx; inversion Hx; subst; auto.
+  - (* quoted triple *)
+    destruct (m_term insert sol ts bl st) as [[st1 bl1] r1] eqn:E1.
+    destruct (IHs _ _ _ _ _ _ _ d0 lo E1 Hpre) as [Po1 R1].
+    pose proof (pre_post _ _ _ _ _ _ Hpre Po1) as Pre1.
+    destruct r1 as [e|[s1|]].
+    { inversion H; subst. split; auto. intros ot Ho; discriminate. }
+    2:{ inversion H; subst. split; auto. intros ot Ho; inversion Ho; subst.
+        destruct (R1 _ eq_refl) as [A1 _]. split; [|intros _ x Hx; discriminate].
+        intros pred bnf Ha. simpl. rewrite (A1 false bnf Ha). reflexivity. }
+    destruct (R1 _ eq_refl) as [A1 I1].
+    destruct (m_term insert sol tp bl1 st1) as [[st2 bl2] r2] eqn:E2.
+    destruct (IHp _ _ _ _ _ _ _ d0 lo E2 Pre1) as [Po2 R2].
+    pose proof (pre_post _ _ _ _ _ _ Pre1 Po2) as Pre2.
+    pose proof (post_trans _ _ _ _ _ _ _ _ Po1 Po2) as Po12.
+    destruct r2 as [e|[p1|]].
+    { inversion H; subst. split; auto. intros ot Ho; discriminate. }
+    2:{ inversion H; subst. split; auto. intros ot Ho; inversion Ho; subst.
+        destruct (R2 _ eq_refl) as [A2 _]. split; [|intros _ x Hx; discriminate].
+        intros pred bnf Ha. simpl.
+        rewrite (A1 false bnf (agrees_extends _ _ _ (post_ext _ _ _ _ _ _ Po2) Ha)), (A2 true bnf Ha). reflexivity. }
+    destruct (R2 _ eq_refl) as [A2 I2].
+    destruct (m_term insert sol to bl2 st2) as [[st3 bl3] r3] eqn:E3.
+    destruct (IHo _ _ _ _ _ _ _ d0 lo E3 Pre2) as [Po3 R3].
+    pose proof (post_trans _ _ _ _ _ _ _ _ Po12 Po3) as Po123.
+    destruct r3 as [e|[o1|]].
+    { inversion H; subst. split; auto. intros ot Ho; discriminate. }
+    2:{ inversion H; subst. split; auto. intros ot Ho; inversion Ho; subst.
+        destruct (R3 _ eq_refl) as [A3 _]. split; [|intros _ x Hx; discriminate].
+        intros pred bnf Ha. simpl.
+        assert (Ha2 : agrees bnf bl2) by (eapply agrees_extends; [exact (post_ext _ _ _ _ _ _ Po3)|exact Ha]).
+        assert (Ha1 : agrees bnf bl1) by (eapply agrees_extends; [exact (post_ext _ _ _ _ _ _ Po2)|exact Ha2]).
+        rewrite (A1 false bnf Ha1), (A2 true bnf Ha2), (A3 false bnf Ha). reflexivity. }
+    destruct (R3 _ eq_refl) as [A3 I3].
+    inversion H; subst. split; auto. intros ot Ho; inversion Ho; subst. split.
+    + intros pred bnf Ha. simpl.
+      assert (Ha2 : agrees bnf bl2) by (eapply agrees_extends; [exact (post_ext _ _ _ _ _ _ Po3)|exact Ha]).
+      assert (Ha1 : agrees bnf bl1) by (eapply agrees_extends; [exact (post_ext _ _ _ _ _ _ Po2)|exact Ha2]).
+      rewrite (A1 false bnf Ha1), (A2 true bnf Ha2), (A3 false bnf Ha). reflexivity.
+    + intros Hs x Hx; inversion Hx; subst. simpl.
+      pose proof (sol_in_incl _ _ _ Hs (post_incl _ _ _ _ _ _ Po1)) as Hs1.
+      pose proof (sol_in_incl _ _ _ Hs1 (post_incl _ _ _ _ _ _ Po2)) as Hs2.
+      intros a Ha. apply in_app_iff in Ha. destruct Ha as [Ha|Ha]; [|apply in_app_iff in Ha; destruct Ha as [Ha|Ha]].
+      * apply (post_incl _ _ _ _ _ _ Po3), (post_incl _ _ _ _ _ _ Po2). eapply I1; eauto.
+      * apply (post_incl _ _ _ _ _ _ Po3). eapply I2; eauto.
+      * eapply I3; eauto.
 Qed.
 
-Lemma sol_in_incl : forall sol d d', sol_in sol d -> incl d d' -> sol_in sol d'.
-Proof. intros sol d d' H Hi v x Hv; apply Hi; eapply H; eauto. Qed.
 
-Lemma post_incl : forall d0 lo bl st bl' st', post d0 lo bl st bl' st' -> incl (i_dict st) (i_dict st').
-Proof. intros d0 lo bl st bl' st' [A _]; exact A. Qed.
-Lemma post_ext : forall d0 lo bl st bl' st', post d0 lo bl st bl' st' -> extends bl bl'.
-Proof. intros d0 lo bl st bl' st' [_ [_ [_ [A _]]]]; exact A. Qed.
+
+
+
 
 (* ---- one template quad ---- *)
 Lemma m_quad_ok : forall insert D sol q bl st st' bl' r d0 lo,
@@ -188,12 +239,12 @@ Proof.
   { inversion H; subst. split; auto. intros oq Ho; discriminate. }
   2:{ inversion H; subst. split; auto. intros oq Ho; inversion Ho; subst.
       destruct (R1 _ eq_refl) as [A1 _]. split; [|intros _ x Hx; discriminate].
-      intros bnf Ha. unfold s_quad_gen. rewrite (A1 bnf Ha). reflexivity. }
+      intros bnf Ha. unfold s_quad_gen. rewrite (A1 false bnf Ha). reflexivity. }
   destruct (R1 _ eq_refl) as [A1 I1].
-  destruct (is_tvar (tq_s q) && negb (legal_subject D s)) eqn:L1.
+  destruct ((is_tvar (tq_s q) || is_qt s) && negb (legal_subject D s)) eqn:L1.
   { inversion H; subst. split; auto. intros oq Ho; inversion Ho; subst.
     split; [|intros _ x Hx; discriminate].
-    intros bnf Ha. unfold s_quad_gen. rewrite (A1 bnf Ha), L1. reflexivity. }
+    intros bnf Ha. unfold s_quad_gen. rewrite (A1 false bnf Ha), L1. reflexivity. }
   destruct (m_term insert sol (tq_p q) bl1 st1) as [[st2 bl2] r2] eqn:E2.
   destruct (m_term_ok _ _ _ _ _ _ _ _ d0 lo E2 Pre1) as [Po2 R2].
   pose proof (pre_post _ _ _ _ _ _ Pre1 Po2) as Pre2.
@@ -203,15 +254,15 @@ Proof.
   2:{ inversion H; subst. split; auto. intros oq Ho; inversion Ho; subst.
       destruct (R2 _ eq_refl) as [A2 _]. split; [|intros _ x Hx; discriminate].
       intros bnf Ha. unfold s_quad_gen.
-      rewrite (A1 bnf (agrees_extends _ _ _ (post_ext _ _ _ _ _ _ Po2) Ha)), L1.
-      rewrite s_pred_a_word, (A2 bnf Ha). reflexivity. }
+      rewrite (A1 false bnf (agrees_extends _ _ _ (post_ext _ _ _ _ _ _ Po2) Ha)), L1.
+      rewrite (A2 true bnf Ha). reflexivity. }
   destruct (R2 _ eq_refl) as [A2 I2].
   destruct (is_tvar (tq_p q) && negb (legal_predicate D p)) eqn:L2.
   { inversion H; subst. split; auto. intros oq Ho; inversion Ho; subst.
     split; [|intros _ x Hx; discriminate].
     intros bnf Ha. unfold s_quad_gen.
-    rewrite (A1 bnf (agrees_extends _ _ _ (post_ext _ _ _ _ _ _ Po2) Ha)), L1.
-    rewrite s_pred_a_word, (A2 bnf Ha), L2. reflexivity. }
+    rewrite (A1 false bnf (agrees_extends _ _ _ (post_ext _ _ _ _ _ _ Po2) Ha)), L1.
+    rewrite (A2 true bnf Ha), L2. reflexivity. }
   destruct (m_term insert sol (tq_o q) bl2 st2) as [[st3 bl3] r3] eqn:E3.
   destruct (m_term_ok _ _ _ _ _ _ _ _ d0 lo E3 Pre2) as [Po3 R3].
   pose proof (pre_post _ _ _ _ _ _ Pre2 Po3) as Pre3.
@@ -223,50 +274,56 @@ Proof.
       intros bnf Ha. unfold s_quad_gen.
       assert (Ha2 : agrees bnf bl2) by (eapply agrees_extends; [exact (post_ext _ _ _ _ _ _ Po3)|exact Ha]).
       assert (Ha1 : agrees bnf bl1) by (eapply agrees_extends; [exact (post_ext _ _ _ _ _ _ Po2)|exact Ha2]).
-      rewrite (A1 bnf Ha1), L1, s_pred_a_word, (A2 bnf Ha2), L2, (A3 bnf Ha). reflexivity. }
+      rewrite (A1 false bnf Ha1), L1, (A2 true bnf Ha2), L2, (A3 false bnf Ha). reflexivity. }
   destruct (R3 _ eq_refl) as [A3 I3].
   assert (Hspec : forall bl4 bnf, extends bl3 bl4 -> agrees bnf bl4 ->
-                  s_term sol bnf (tq_s q) = Some s /\ s_pred a_word sol bnf (tq_p q) = Some p /\ s_term sol bnf (tq_o q) = Some o).
+                  s_term_gen a_word false sol bnf (tq_s q) = Some s /\ s_term_gen a_word true sol bnf (tq_p q) = Some p /\
+                  s_term_gen a_word false sol bnf (tq_o q) = Some o).
   { intros bl4 bnf Hx Ha.
     assert (Ha3 : agrees bnf bl3) by (eapply agrees_extends; eauto).
     assert (Ha2 : agrees bnf bl2) by (eapply agrees_extends; [exact (post_ext _ _ _ _ _ _ Po3)|exact Ha3]).
     assert (Ha1 : agrees bnf bl1) by (eapply agrees_extends; [exact (post_ext _ _ _ _ _ _ Po2)|exact Ha2]).
-    rewrite s_pred_a_word; auto. }
-  assert (Hin : sol_in sol (i_dict st) -> In s (i_dict st3) /\ In p (i_dict st3) /\ In o (i_dict st3)).
+    auto. }
+  assert (Hin : sol_in sol (i_dict st) -> incl (atoms s) (i_dict st3) /\ incl (atoms p) (i_dict st3) /\ incl (atoms o) (i_dict st3)).
   { intros Hs.
     pose proof (sol_in_incl _ _ _ Hs (post_incl _ _ _ _ _ _ Po1)) as Hs1.
     pose proof (sol_in_incl _ _ _ Hs1 (post_incl _ _ _ _ _ _ Po2)) as Hs2.
     split; [|split].
-    - apply (post_incl _ _ _ _ _ _ Po3), (post_incl _ _ _ _ _ _ Po2). eapply I1; eauto.
-    - apply (post_incl _ _ _ _ _ _ Po3). eapply I2; eauto.
+    - intros a Ha. apply (post_incl _ _ _ _ _ _ Po3), (post_incl _ _ _ _ _ _ Po2). eapply I1; eauto.
+    - intros a Ha. apply (post_incl _ _ _ _ _ _ Po3). eapply I2; eauto.
     - eapply I3; eauto. }
+  destruct (is_qt o && negb (legal_object D o)) eqn:L3.
+  { inversion H; subst. split; auto. intros oq Ho; inversion Ho; subst.
+    split; [|intros _ x Hx; discriminate].
+    intros bnf Ha. destruct (Hspec bl' bnf (extends_refl _) Ha) as [X1 [X2 X3]].
+    unfold s_quad_gen. rewrite X1, L1, X2, L2, X3, L3. reflexivity. }
   destruct (tq_g q) as [|v|g|] eqn:Eg.
   - inversion H; subst. split; auto. intros oq Ho; inversion Ho; subst. split.
     + intros bnf Ha. destruct (Hspec bl' bnf (extends_refl _) Ha) as [X1 [X2 X3]].
-      unfold s_quad_gen. rewrite X1, L1, X2, L2, X3, Eg. reflexivity.
+      unfold s_quad_gen. rewrite X1, L1, X2, L2, X3, L3, Eg. reflexivity.
     + intros Hs x Hx; inversion Hx; subst. destruct (Hin Hs) as [Y1 [Y2 Y3]].
       unfold quad_in; simpl. repeat split; auto. intros g Hg; discriminate.
   - destruct (lookup v sol) as [g|] eqn:Ev.
     + destruct (legal_graph D g) eqn:Lg.
       * inversion H; subst. split; auto. intros oq Ho; inversion Ho; subst. split.
         -- intros bnf Ha. destruct (Hspec bl' bnf (extends_refl _) Ha) as [X1 [X2 X3]].
-           unfold s_quad_gen. rewrite X1, L1, X2, L2, X3, Eg, Ev, Lg. reflexivity.
+           unfold s_quad_gen. rewrite X1, L1, X2, L2, X3, L3, Eg, Ev, Lg. reflexivity.
         -- intros Hs x Hx; inversion Hx; subst. destruct (Hin Hs) as [Y1 [Y2 Y3]].
            unfold quad_in; simpl. repeat split; auto. intros g0 Hg; inversion Hg; subst.
-           apply (post_incl _ _ _ _ _ _ Po123). eapply Hs; eauto.
+           intros a Ha. apply (post_incl _ _ _ _ _ _ Po123). eapply Hs; eauto.
       * inversion H; subst. split; auto. intros oq Ho; inversion Ho; subst. split; [|intros _ x Hx; discriminate].
         intros bnf Ha. destruct (Hspec bl' bnf (extends_refl _) Ha) as [X1 [X2 X3]].
-        unfold s_quad_gen. rewrite X1, L1, X2, L2, X3, Eg, Ev, Lg. reflexivity.
+        unfold s_quad_gen. rewrite X1, L1, X2, L2, X3, L3, Eg, Ev, Lg. reflexivity.
     + inversion H; subst. split; auto. intros oq Ho; inversion Ho; subst. split; [|intros _ x Hx; discriminate].
       intros bnf Ha. destruct (Hspec bl' bnf (extends_refl _) Ha) as [X1 [X2 X3]].
-      unfold s_quad_gen. rewrite X1, L1, X2, L2, X3, Eg, Ev. reflexivity.
+      unfold s_quad_gen. rewrite X1, L1, X2, L2, X3, L3, Eg, Ev. reflexivity.
   - inversion H; subst. destruct (encode_post d0 lo bl' st3 g Pre3) as [Pe Hg].
     split; [eapply post_trans; eauto|]. intros oq Ho; inversion Ho; subst. split.
     + intros bnf Ha. destruct (Hspec bl' bnf (extends_refl _) Ha) as [X1 [X2 X3]].
-      unfold s_quad_gen. rewrite X1, L1, X2, L2, X3, Eg. reflexivity.
+      unfold s_quad_gen. rewrite X1, L1, X2, L2, X3, L3, Eg. reflexivity.
     + intros Hs x Hx; inversion Hx; subst. destruct (Hin Hs) as [Y1 [Y2 Y3]].
       pose proof (post_incl _ _ _ _ _ _ Pe) as Hi.
-      unfold quad_in; simpl. repeat split; auto. intros g0 Hg0; inversion Hg0; subst; auto.
+      unfold quad_in; simpl. repeat split; try (eapply incl_tran; eauto; fail). intros g0 Hg0; inversion Hg0; subst; auto.
   - inversion H; subst. split; auto. intros oq Ho; discriminate.
 Qed.
 
@@ -274,7 +331,10 @@ Qed.
 Definition acc_in (acc : list quad) (d : list term) : Prop := forall x, In x acc -> quad_in x d.
 
 Lemma quad_in_incl : forall q d d', quad_in q d -> incl d d' -> quad_in q d'.
-Proof. intros q d d' [A [B [C E]]] Hi. repeat split; auto. Qed.
+Proof.
+  intros q d d' [A [B [C E]]] Hi. repeat split; try (eapply incl_tran; eauto; fail).
+  intros g Hg. eapply incl_tran; eauto.
+Qed.
 
 Lemma m_solution_ok : forall insert D sol tqs bl st acc st' bl' r d0 lo,
   m_solution insert D sol tqs bl st acc = (st', bl', r) -> pre d0 lo bl st ->
